@@ -40,7 +40,7 @@ m = {"version": 1,
      "engines": [{"name": "pyvc", "path": "/verif/pyvc", "serves_properties": [c["property_id"] for c in checks],
                   "kind_free_text": "VC generator for Python written for this task: parses the real functions from /repo on every run, executes them symbolically against sidecar contracts (pre/post/exceptional post/loop invariants/ghost state), modular at calls; obligations discharged by z3 5.1 (CLI z3-new; quantifier-free part first, then the full query) with cvc5 1.0.3 (--strings-exp) taking z3's unknowns, one generous retry for anything still open"}],
      "checks": checks,
-     "notes": "19 fix: commits in /repo repair the defects found (known_findings.json, DESIGN.md 9.5); 8 further departures are listed as known findings; the reverse of every fix (mutants/prefix), 60 seeded property-breaking changes (seeded/), 13 behaviour-preserving refactorings (refactorings/) and hand-written mutations (mutants/Cxx) are the self-test of the thorough tier (DESIGN.md 9.4)",
+     "notes": "30 fix: commits in /repo repair the defects found (known_findings.json, DESIGN.md 9.5); 17 further departures are listed as known findings; the reverse of every fix (mutants/prefix), 60 seeded property-breaking changes (seeded/), 13 behaviour-preserving refactorings (refactorings/) and hand-written mutations (mutants/Cxx) are the self-test of the thorough tier (DESIGN.md 9.4)",
      "not_applicable": na}
 json.dump(m, open(os.path.join(V, "MANIFEST.json"), "w"), indent=1)
 print("claimed:", [c["property_id"] for c in checks])
